@@ -58,10 +58,28 @@ def c07_health(op, impl, model):
     return None
 
 
+def c09_health(op, impl, model):
+    """an assessment that the model says must FAIL on an unusable oracle (stale / unauthentic / wrong account /
+    confidence too wide) completes in the implementation"""
+    if not op.startswith("risk.pulse"):
+        return None
+    i, m = _nums(impl), _nums(model)
+    if not i or not m or len(i) < 12 or len(m) < 12:
+        return None
+    verdicts = {0, 6009, 6013, 6068, 6029}
+    names = {6: "initial-margin check", 7: "liquidation pre-condition", 8: "bankruptcy assessment"}
+    for k in (8, 7, 6):
+        if i[k] in verdicts and m[k] not in verdicts:
+            return (f"C09 the {names[k]} completes (verdict {i[k]}) although a price it needs is unusable "
+                    f"(independent evaluation fails with error {m[k]}): {op}")
+    return None
+
+
 WITNESS = {
     "C04": [c04_health],
     "C05": [c05_health],
     "C07": [c07_health],
+    "C09": [c09_health],
 }
 
 
